@@ -33,6 +33,9 @@ type Prog struct {
 	Cold    bool     `json:"cold,omitempty"` // clients start on a freshly opened handle: nothing loaded
 	Threads [][]Call `json:"threads"`
 	Ticks   int      `json:"ticks,omitempty"` // ticks granted after the clients finished (async deadlines)
+	// TrackSlots: an accepted insert of the (single) client becomes the next slot at once,
+	// so that its later calls can address the object it just created
+	TrackSlots bool `json:"track_slots,omitempty"`
 }
 
 // CallRec is the record of one executed call.
@@ -109,6 +112,9 @@ func runProg(prog Prog, prefix []int, bound int, final func(w *World, r *ExecRes
 					rec.Thread, rec.Index, rec.Call = ti, ci, call
 					rec.Inv = nextStamp(&clock)
 					rec.Res, rec.UUID = execCall(w, call)
+					if prog.TrackSlots && call.Name == "ins" && rec.Res == "ok" {
+						w.Slots = append(w.Slots, rec.UUID)
+					}
 					rec.Resp = nextStamp(&clock)
 					rec.Done = true
 				}
@@ -118,6 +124,9 @@ func runProg(prog Prog, prefix []int, bound int, final func(w *World, r *ExecRes
 			vrt.Join(id)
 		}
 		vrt.SetSequential(true)
+		for ti := range recs {
+			r.Hist = append(r.Hist, recs[ti]...)
+		}
 		if prog.Ticks > 0 {
 			vrt.Tick(prog.Ticks)
 		}
@@ -126,8 +135,11 @@ func runProg(prog Prog, prefix []int, bound int, final func(w *World, r *ExecRes
 		}
 	})
 	r.X = x
-	for ti := range recs {
-		r.Hist = append(r.Hist, recs[ti]...)
+	if len(r.Hist) == 0 {
+		// the driver did not reach the end (deadlock, panic): partial history
+		for ti := range recs {
+			r.Hist = append(r.Hist, recs[ti]...)
+		}
 	}
 	return r
 }
